@@ -9371,6 +9371,7 @@ class SVG(Group):
                     s.render(ppi=ppi, width=width, height=height)
                     clip += 1
                 elif SVG_TAG_USE == tag:
+                    use += 1  # Its end event decrements, also when the element is skipped below.
                     try:
                         s = Use(values)
                     except ValueError:
@@ -9391,7 +9392,6 @@ class SVG(Group):
                     if context is not None:
                         context.append(s)
                     context = s
-                    use += 1
                     if SVG_ATTR_ID in attributes and isinstance(root, SVG) and use == 1:
                         root.objects[attributes[SVG_ATTR_ID]] = s
                 elif SVG_TAG_PATTERN == tag:
